@@ -377,7 +377,7 @@ func (w *Work) BuildPrograms(specs []ProgSpec, genOpts instrument.Options, extra
 	if err := os.WriteFile(filepath.Join(nodeDir, "main.go"), []byte(mb.String()), 0o644); err != nil {
 		return built, "", err
 	}
-	node := filepath.Join(w.Dir, "simnode")
+	node := filepath.Join(w.H, "simnode")
 	if out, err := Run(w.H, nil, "go", "build", "-tags", "verifnode", "-o", node, "./node"); err != nil {
 		return built, "", fmt.Errorf("linking the simulation node failed: %v\n%s", err, clip(out))
 	}
